@@ -102,13 +102,17 @@ func upstreamRequestOK(ex *world.Exchange, c *world.Call) string {
 			return "url " + c.URL + " != " + ex.Req.URL
 		}
 	}
+	// the two conditional fields are the cache's to set (judged by validatorsOK)
 	want := ReqHeader(ex.Req)
 	got := c.Header.Clone()
-	if len(want.Values("If-None-Match")) == 0 {
-		got.Del("If-None-Match")
+	for _, k := range []string{"If-None-Match", "If-Modified-Since"} {
+		want.Del(k)
+		got.Del(k)
 	}
-	if len(want.Values("If-Modified-Since")) == 0 {
-		got.Del("If-Modified-Since")
+	for k, vs := range want {
+		for i, v := range vs {
+			want[k][i] = world.SubstBytes(v)
+		}
 	}
 	if d := world.DiffHeader(want, got); d != "" {
 		return "header " + d
@@ -213,7 +217,9 @@ func C02(o *world.Obs) *Result {
 					src.Serial, reason, SummarizeExchange(o, ex))
 			default:
 				r.Label("required:" + reason + ":304")
-				if d := validatorsOK(o, ex, src, v304); d != "" && !HasClientConditional(ex.Req) {
+				// (with a client-supplied conditional the stored validators still have to be the
+				// ones that were validated - judged when the stored reply has an entity tag)
+				if d := validatorsOK(o, ex, src, v304); d != "" && (!HasClientConditional(ex.Req) || src.RespHdr.Get("Etag") != "") {
 					r.Fail("C02", "wrong-validators", ex.Idx, "validation request for s%d: %s; %s", src.Serial, d, SummarizeExchange(o, ex))
 				}
 			}
